@@ -1,6 +1,6 @@
 SPECIFICATION SpecMC
 CONSTANTS
-  Starts = {"1x1","1x3","3x1","2x2","3x3","h3","v3","r3","n2"}
+  Starts = {"2x2","3x3","h3","v3","r3","n2"}
   OpNames = {"InsertRow","AppendRow","DeleteRow","DeleteRows","InsertColumn","AppendColumn","DeleteColumn","DeleteColumns","SetCellText","ClearCellParagraphs","AddCellParagraph","AddNestedTable","MergeCellsHorizontal","MergeCellsVertical","MergeCellsRange","UnmergeCells","ClearTable","CopyTable","ReadAll"}
   Depth = 0
   Slack = 0
